@@ -389,15 +389,19 @@ def unit_module_state():
     def run():
         c = ctx()
         from xitorch._core.pure_function import get_pure_function, make_sibling
-        rf = importlib.import_module("xitorch.optimize.rootfinder")
         f = kit.UserFn("f")
+
+        def use(k0, k1):
+            # everything created here dies by reference counting when the function returns
+            for k in range(k0, k1):
+                def fresh(y, p, k=k):
+                    return f(y, p)
+                pfn = get_pure_function(fresh)
+                make_sibling(pfn)(lambda y, p: fresh(y, p))
+                get_pure_function(lambda y: y)
+        use(0, 3)                      # warm-up: lazily created tables may appear once
         before = containers()
-        for k in range(4):
-            def fresh(y, p, k=k):
-                return f(y, p)
-            pfn = get_pure_function(fresh)
-            make_sibling(pfn)(lambda y, p: fresh(y, p))
-            get_pure_function(lambda y: y)
+        use(3, 9)
         after = containers()
         grew = [(k, before.get(k), v) for k, v in after.items() if v > before.get(k, 0)]
         c.check("no_module_or_class_level_container_grows_with_fresh_functions", not grew, detail=str(grew[:3]))
